@@ -106,6 +106,15 @@ CLAIMED["C08"] = dict(engine="library", design="4 C08",
    note="K1 (add fail_on_duplicate_key=True raises after appending) is a known finding; subclasses of Entry/String and caller-made failed blocks sharing one "
         "exception object are outside the model; model hand-written, tied by correspondence; extraction cross-checked by vm_compute",
    technique="Coq proof (representation invariant by induction over histories, explicit rollback computation) + differential correspondence via extracted model")
+
+CLAIMED["C10"] = dict(engine="enclosing", design="4 C10",
+  text="Coq theorems over the enclosing model (_strip_enclosing characterised against an independent outer-pair spec over prefixes/active-brace depth; reuse restores; integer rule and default enclosing without error; metadata and frame for entries/strings/libraries; numeric-field constants re-proved at every build), tied to /repo by bounded-exhaustive differential correspondence (all token strings up to 4/5 tokens, samples to 7, ints, every option combination) through the function level and the real middlewares, and by a Python oracle that also checks remove->add->write_string->parse_string.",
+  note="the re-parse clause composes with the splitter and is checked by the Python oracle through the real write_string/parse_string (and by C05's composed model); K2/K4 open known findings; str.strip/isdigit enter as per-character flags; non str/int values reaching _enclose are outside the model (skipped)",
+  technique="Coq proof + differential correspondence via extracted model + property oracle through the public entry points")
+CLAIMED["C11"] = dict(engine="interpolate", design="4 C11",
+  text="Coq theorems over ResolveStringReferences on a library given as the block list it is built from (first definition per key proved from the Library model; resolved/untouched/metadata via a spec relation; non-entry blocks untouched; default stack = resolve then remove acts block-wise, field holds the referenced string's content; order-matters witness), tied to /repo by differential correspondence on split libraries of generated documents (resolve alone, real default parse_string, swapped order) and a Python oracle on parse_string(text) against the document spec.",
+  note="'after default parsing of a grammar-derived document' composes with the splitter model (C02/C09) and is covered here by the oracle; duplicate-wrapped entries are not live and not resolved (checked by correspondence)",
+  technique="Coq proof + differential correspondence via extracted model + document-spec oracle")
 PENDING = {}
 
 def main():
